@@ -307,7 +307,11 @@ class G:
             while len(b["select"]) < n:
                 b["select"].append({"e": {"k": "const", "v": 0}, "as": self.alias("z")})
             b["select"] = b["select"][:n]
-            a["select"][0] = {"e": self.col([a["from"][0]] if a["from"][0]["k"] == "table" else [a["from"][0]]), "as": self.alias("k")}
+            k_item = {"e": self.col([a["from"][0]] if a["from"][0]["k"] == "table" else [a["from"][0]]), "as": self.alias("k")}
+            if not a["group"] and not any(s_["e"].get("k") == "agg" for s_ in a["select"]):
+                # (a bare column next to aggregates / outside the GROUP BY keys is taken from an arbitrary row of the group: the engine
+                #  may pick another one under another plan, so the first branch keeps its own select list then)
+                a["select"][0] = k_item
             for q in (a, b):
                 q["order"] = []
                 q["distinct"] = False
@@ -918,6 +922,9 @@ def run_case(case, mon):
                         mon.add("execution_errors", str(e)[:50])
                         break
                     mon.count("executed_pairs")
+                    # (stored floats differ in their last digits when a product is re-associated: x*(y*z) is printed x*y*z)
+                    d1 = [sorted(map(norm_row, tb_)) for tb_ in d1]
+                    d2 = [sorted(map(norm_row, tb_)) for tb_ in d2]
                     if d1 != d2:
                         mon.violation(semantic_key(p), "different table contents on generated database %d after: rendered %r ; reference %r" % (i, sql[:300], ref[:300]),
                                       {"program": p, "sql": sql, "ref": ref})
